@@ -78,7 +78,7 @@ package freelist
 //@ pure func reptxp(x *txPending, tid common.Txid) bool = x != nil && len(x.ids) == len(x.alloctx) && (forall k int :: 0 <= k && k < len(x.ids) ==> x.alloctx[k] == galloc(x.ids[k]) && gpend(x.ids[k]) == tid)
 //@ pure func reppend(t *shared) bool = t.pending != nil && (forall tid common.Txid :: has(t.pending, tid) ==> reptxp(t.pending[tid], tid))
 //@ pure func seppend(t *shared) bool = (forall a common.Txid, b common.Txid :: a != b && has(t.pending, a) && has(t.pending, b) ==> t.pending[a] != t.pending[b] && (len(t.pending[a].ids) == 0 || len(t.pending[b].ids) == 0 || (arrayof(t.pending[a].ids) != arrayof(t.pending[b].ids) && arrayof(t.pending[a].alloctx) != arrayof(t.pending[b].alloctx)))) && (forall a common.Txid :: has(t.pending, a) ==> len(t.pending[a].ids) == 0 || arrayof(t.pending[a].alloctx) != arrayof(t.readonlyTXIDs))
-//@ pure func readerssame(t *shared) bool = len(t.readonlyTXIDs) == old(len(t.readonlyTXIDs)) && arrayof(t.readonlyTXIDs) == old(arrayof(t.readonlyTXIDs)) && offof(t.readonlyTXIDs) == old(offof(t.readonlyTXIDs)) && (forall j int :: 0 <= j && j < len(t.readonlyTXIDs) ==> t.readonlyTXIDs[j] == old(t.readonlyTXIDs[j]))
+//@ pure func readerssame(t *shared) bool = len(t.readonlyTXIDs) == old(len(t.readonlyTXIDs)) && arrayof(t.readonlyTXIDs) == old(arrayof(t.readonlyTXIDs)) && offof(t.readonlyTXIDs) == old(offof(t.readonlyTXIDs)) && samerow(t.readonlyTXIDs)
 
 //@ func (*shared).releaseRange
 //@   props C09 C02 C10
@@ -129,6 +129,7 @@ package freelist
 //@   modifies gfree, mapof(t.pending), all("txPending.ids"), all("txPending.alloctx"), all("txPending.lastReleaseBegin"), allelems("common.Pgid"), allelems("common.Txid"), all("array.ids"), all("hashMap.freePagesCount"), allmaps("uint64", "freelist.pidSet"), allmaps("common.Pgid", "uint64")
 //@   loop 0 invariant [rep] reppend(t) && seppend(t)
 //@   loop 0 invariant [hdr] t.Interface == old(t.Interface) && len(t.readonlyTXIDs) == old(len(t.readonlyTXIDs)) && arrayof(t.readonlyTXIDs) == old(arrayof(t.readonlyTXIDs)) && offof(t.readonlyTXIDs) == old(offof(t.readonlyTXIDs))
+//@   loop 0 invariant [idx] rangeindex < len(t.readonlyTXIDs)
 //@   loop 0 invariant [sorted] forall a int, b int :: 0 <= a && a <= b && b < len(t.readonlyTXIDs) ==> t.readonlyTXIDs[a] <= t.readonlyTXIDs[b]
 //@   loop 0 invariant [bound] forall a int :: 0 <= a && a < len(t.readonlyTXIDs) ==> t.readonlyTXIDs[a] < 18446744073709551615
 //@   loop 0 invariant [perm1] forall a int :: 0 <= a && a < len(t.readonlyTXIDs) ==> (let r := t.readonlyTXIDs[a] in old(isreader(t, r)))
